@@ -62,6 +62,9 @@ def expected_big():
     for n in ('created_after_clear', 'destroyed_after_clear'):
         L += ['%s end after 0 hint 0 Some(0)' % n, '%s again_none true' % n]
     L.append('len255 1 find Some(4)')
+    # C17: the logs hold exactly the events since the last clear, however long they got; clear_events empties both
+    for burst in (1000, 70000, 70000, 10):
+        L.append('burst %d pending %d %d %d after_clear 0 0 0 0' % (burst, burst, burst, burst))
     return L
 
 
